@@ -228,17 +228,24 @@ func c18(r *Run) {
 		}()
 		for i, c := range closes {
 			// the closed element comes from m.polls and the loop is bounded by len(m.polls)
-			_, fromOld := func() (ssa.Value, bool) {
-				u, ok := callCommon(c).Value.(*ssa.UnOp)
-				if !ok {
-					return nil, false
+			// the pool the closed element is taken from: m.polls itself or an open-ended tail m.polls[k:] of it
+			isOldPool := func(v ssa.Value) bool {
+				if _, ok := loadOfField(v, "manager", "polls"); ok {
+					return true
 				}
-				ia, ok := u.X.(*ssa.IndexAddr)
-				if !ok {
-					return nil, false
+				if sl, ok := v.(*ssa.Slice); ok && sl.High == nil && sl.Max == nil {
+					_, ok := loadOfField(sl.X, "manager", "polls")
+					return ok
 				}
-				return loadOfField(ia.X, "manager", "polls")
-			}()
+				return false
+			}
+			var pool ssa.Value
+			if u, ok := callCommon(c).Value.(*ssa.UnOp); ok {
+				if ia, ok := u.X.(*ssa.IndexAddr); ok && isOldPool(ia.X) {
+					pool = ia.X
+				}
+			}
+			fromOld := pool != nil
 			boundOld := false
 			for _, g := range guardChain(c.Block()) {
 				b, ok := g.Cond.(*ssa.BinOp)
@@ -247,8 +254,17 @@ func c18(r *Run) {
 				}
 				if lc, ok := b.Y.(*ssa.Call); ok {
 					if bi, isB := lc.Call.Value.(*ssa.Builtin); isB && bi.Name() == "len" {
-						if _, isOld := loadOfField(lc.Call.Args[0], "manager", "polls"); isOld {
-							if _, isPhi := b.X.(*ssa.Phi); isPhi {
+						// bounded by the length of the old pool (index loop) or of the very tail that is walked (range loop)
+						// ... and what is bounded is the loop variable (a phi, or the phi+1 of a range loop), not the test that
+						// selects the shrink branch
+						isLoopVar := false
+						if _, isPhi := b.X.(*ssa.Phi); isPhi {
+							isLoopVar = true
+						} else if add, ok := b.X.(*ssa.BinOp); ok && add.Op == token.ADD {
+							_, isLoopVar = add.X.(*ssa.Phi)
+						}
+						if a := lc.Call.Args[0]; isLoopVar && (a == pool || isOldPool(a)) {
+							if _, isSl := a.(*ssa.Slice); !isSl || a == pool {
 								boundOld = true
 							}
 						}
